@@ -612,6 +612,11 @@ class Loader:
                     _LOGGER.info('Restore identity %s => %s',
                                  appname, identity)
                     app.force_set_identity(identity)
+                if app.placement_expiry != expires:
+                    # The lease was re-evaluated, keep the published placement
+                    # in line with the model.
+                    data['expires'] = app.placement_expiry
+                    self.backend.put(appnode, data)
 
         return placed_apps, restored_apps
 
